@@ -216,11 +216,14 @@ func (p *party) Sign(ctx context.Context, msgHash []byte) ([]byte, error) {
 	var endWG sync.WaitGroup
 	endWG.Add(1)
 
+	startFailed := make(chan error, 1)
+
 	go func() {
 		defer endWG.Done()
 		err := party.Start()
 		if err != nil {
 			p.logger.Errorf("Failed signing: %v", err)
+			startFailed <- err
 		}
 	}()
 
@@ -230,6 +233,8 @@ func (p *party) Sign(ctx context.Context, msgHash []byte) ([]byte, error) {
 		select {
 		case <-ctx.Done():
 			return nil, fmt.Errorf("signing timed out: %w", ctx.Err())
+		case err := <-startFailed:
+			return nil, fmt.Errorf("failed signing: %w", err)
 		case sigOut := <-end:
 			if !bytes.Equal(sigOut.M, msgHash) {
 				return nil, fmt.Errorf("message we requested to sign is %s but actual message signed is %s",
@@ -274,11 +279,14 @@ func (p *party) KeyGen(ctx context.Context) ([]byte, error) {
 	var endWG sync.WaitGroup
 	endWG.Add(1)
 
+	startFailed := make(chan error, 1)
+
 	go func() {
 		defer endWG.Done()
 		err := party.Start()
 		if err != nil {
 			p.logger.Errorf("Failed generating key: %v", err)
+			startFailed <- err
 		}
 	}()
 
@@ -288,6 +296,8 @@ func (p *party) KeyGen(ctx context.Context) ([]byte, error) {
 		select {
 		case <-ctx.Done():
 			return nil, fmt.Errorf("DKG timed out: %w", ctx.Err())
+		case err := <-startFailed:
+			return nil, fmt.Errorf("failed generating key: %w", err)
 		case dkgOut := <-end:
 			dkgRawOut, err := json.Marshal(*dkgOut)
 			if err != nil {
